@@ -173,23 +173,23 @@ package iam
 // nothing remains to be fulfilled, every nonce was fresh, and every presentation verified.
 //@ func (Wrapper).handleS2SAccessTokenRequest
 //@   prop C02 C19
-//@   loop 1 invariant pexEnvelope != nil && submission != nil
-//@   loop 1 invariant !did(call (Wrapper).validatePresentationAudience #1) || isNilIface(ret(call (Wrapper).validatePresentationAudience #1))
+//@   loop @validatePresentationSigner invariant pexEnvelope != nil && submission != nil
+//@   loop @validatePresentationSigner invariant !did(call (Wrapper).validatePresentationAudience #1) || isNilIface(ret(call (Wrapper).validatePresentationAudience #1))
 // the presenter every later presentation is compared with is the one the presentation before it established
-//@   loop 1 invariant !did(call validatePresentationSigner #1) || (isNilIface(ret(call validatePresentationSigner #1).1) && ret(call validatePresentationSigner #1).0 != nil && same(credentialSubjectID, *ret(call validatePresentationSigner #1).0))
-//@   loop 2 invariant pexEnvelope != nil && pexConsumer != nil && !did(call (Wrapper).validateS2SPresentationNonce #1) || isNilIface(ret(call (Wrapper).validateS2SPresentationNonce #1))
-//@   loop 3 invariant pexEnvelope != nil && pexConsumer != nil && !did(call (verifier.Verifier).VerifyVP #1) || isNilIface(ret(call (verifier.Verifier).VerifyVP #1).1)
+//@   loop @validatePresentationSigner invariant !did(call validatePresentationSigner #1) || (isNilIface(ret(call validatePresentationSigner #1).1) && ret(call validatePresentationSigner #1).0 != nil && same(credentialSubjectID, *ret(call validatePresentationSigner #1).0))
+//@   loop @validateS2SPresentationNonce invariant pexEnvelope != nil && pexConsumer != nil && !did(call (Wrapper).validateS2SPresentationNonce #1) || isNilIface(ret(call (Wrapper).validateS2SPresentationNonce #1))
+//@   loop @VerifyVP invariant pexEnvelope != nil && pexConsumer != nil && !did(call (verifier.Verifier).VerifyVP #1) || isNilIface(ret(call (verifier.Verifier).VerifyVP #1).1)
 // verified as of now (validAt nil), with trust left to the definition (allowUntrusted) and signatures checked
 //@   call (verifier.Verifier).VerifyVP #1 requires [verified-as-of-now-with-signatures] same(arg(1), presentation) && arg(2) == true && arg(3) == true && arg(4) == nil
 //@   call validatePresentationSigner #1 requires [after-validity-window-check-of-the-same-presentation]
 //@        isNilIface(ret(call validateS2SPresentationMaxValidity #1)) && same(arg(call validateS2SPresentationMaxValidity #1, 0), arg(0)) && same(arg(1), credentialSubjectID)
 //@   call (Wrapper).validatePresentationAudience #1 requires [after-presenter-check-of-the-same-presentation]
 //@        isNilIface(ret(call validatePresentationSigner #1).1) && same(arg(call validatePresentationSigner #1, 0), arg(1)) && arg(2) == subject
-//@   call (*PEXConsumer).fulfill #1 requires [against-the-definitions-of-the-requested-scope] $done1
+//@   call (*PEXConsumer).fulfill #1 requires [against-the-definitions-of-the-requested-scope] $done@validatePresentationSigner
 //@        && isNilIface(ret(call (Wrapper).presentationDefinitionForScope #1).1) && arg(call (Wrapper).presentationDefinitionForScope #1, 2) == scope
 //@        && arg(call newPEXConsumer #1, 0) == ret(call (Wrapper).presentationDefinitionForScope #1).0 && arg(0) == ret(call newPEXConsumer #1)
 //@        && same(arg(1), *submission) && same(arg(2), *pexEnvelope)
-//@   call (Wrapper).createAccessToken #1 requires [only-after-all-checks] $done1 && $done2 && $done3
+//@   call (Wrapper).createAccessToken #1 requires [only-after-all-checks] $done@validatePresentationSigner && $done@validateS2SPresentationNonce && $done@VerifyVP
 //@        && isNilIface(ret(call (*PEXConsumer).fulfill #1))
 //@        && same(arg(5), *ret(call newPEXConsumer #1)) && arg(2) == clientID && arg(4) == scope
 //@        && isNilIface(ret(call dpopFromRequest #1).1) && arg(6) == ret(call dpopFromRequest #1).0
@@ -323,16 +323,16 @@ package iam
 //@ func (Wrapper).handleAuthorizeResponseSubmission
 //@   prop C02 C19
 //@   requires request.Body != nil
-//@   loop 1 invariant pexEnvelope != nil && submission != nil && request.Body != nil && request.Body.State != nil
-//@   loop 1 invariant !did(call (Wrapper).validatePresentationAudience #1) || isNilIface(ret(call (Wrapper).validatePresentationAudience #1))
-//@   loop 2 invariant pexEnvelope != nil && submission != nil && request.Body != nil && request.Body.State != nil
-//@   loop 2 invariant !did(call (verifier.Verifier).VerifyVP #1) || isNilIface(ret(call (verifier.Verifier).VerifyVP #1).1)
-//@   loop 1 invariant !did(call validatePresentationSigner #1) || (isNilIface(ret(call validatePresentationSigner #1).1) && ret(call validatePresentationSigner #1).0 != nil && same(credentialSubjectID, *ret(call validatePresentationSigner #1).0))
+//@   loop @validatePresentationSigner invariant pexEnvelope != nil && submission != nil && request.Body != nil && request.Body.State != nil
+//@   loop @validatePresentationSigner invariant !did(call (Wrapper).validatePresentationAudience #1) || isNilIface(ret(call (Wrapper).validatePresentationAudience #1))
+//@   loop @VerifyVP invariant pexEnvelope != nil && submission != nil && request.Body != nil && request.Body.State != nil
+//@   loop @VerifyVP invariant !did(call (verifier.Verifier).VerifyVP #1) || isNilIface(ret(call (verifier.Verifier).VerifyVP #1).1)
+//@   loop @validatePresentationSigner invariant !did(call validatePresentationSigner #1) || (isNilIface(ret(call validatePresentationSigner #1).1) && ret(call validatePresentationSigner #1).0 != nil && same(credentialSubjectID, *ret(call validatePresentationSigner #1).0))
 //@   call validatePresentationSigner #1 requires [compared-with-the-presenter-established-so-far] same(arg(0), presentation) && same(arg(1), credentialSubjectID)
 //@   call (verifier.Verifier).VerifyVP #1 requires [verified-as-of-now-with-signatures] same(arg(1), presentation) && arg(2) == true && arg(3) == true && arg(4) == nil
 //@   call (Wrapper).validatePresentationAudience #1 requires [after-presenter-check-of-the-same-presentation]
 //@        isNilIface(ret(call validatePresentationSigner #1).1) && same(arg(call validatePresentationSigner #1, 0), arg(1)) && arg(2) == request.SubjectID
-//@   call (*PEXConsumer).fulfill #1 requires [only-verified-presentations-are-recorded] $done1 && $done2
+//@   call (*PEXConsumer).fulfill #1 requires [only-verified-presentations-are-recorded] $done@validatePresentationSigner && $done@VerifyVP
 //@        && isNilIface(ret(call (Wrapper).validatePresentationNonce #1)) && arg(call (Wrapper).validatePresentationNonce #1, 2) == state
 //@        && arg(call (Wrapper).validatePresentationNonce #1, 1) == pexEnvelope.Presentations
 //@        && isNilIface(ret(call (storage.SessionStore).Get #1)) && arg(call (storage.SessionStore).Get #1, 1) == state
